@@ -202,7 +202,7 @@ func main() {
 		if e.Search && e.Focus == "" {
 			// nothing diverged, the tie broke elsewhere (lock-discipline lint, proof): look for an atomicity failure with
 			// many concurrent callers of one wrapper
-			vols = []vol{{"P/2/stress", 0, 15}, {"P/3/stress", 0, 25}, {"P/4/stress", 0, 30}}
+			vols = []vol{{"P/3/stress", 0, 60}, {"P/5/stress", 0, 80}, {"P/8/stress", 0, 80}}
 		}
 		specs := []spec{}
 		for _, v := range vols {
